@@ -48,10 +48,33 @@ fn element_pool(tc: &TypeCorpus, key: &str) -> Vec<Value> {
 
 /// oracle for one message tree whose list has n elements: encodes, wire count == n, decodes to the same message
 pub fn oracle_list(number: u16, tree: &Value, n: usize) -> Result<Vec<u8>, (String, String)> {
+    let f = oracle_list_with(number, tree, n, None)?;
+    // the same list on a builder whose first use was a refused (or long) message: count, elements and frame unchanged
+    let pool = crate::checks::c12::pool(msggen_seed());
+    let dist = crate::checks::c12::disturbers(msggen_seed());
+    let d = &pool[dist[(n + number as usize) % dist.len()]];
+    let f2 = oracle_list_with(number, tree, n, Some(&d.msg)).map_err(|(sig, msg)| (format!("{}(builder-used-before)", sig), format!("builder used before for [{}]: {}", d.label, msg)))?;
+    if f2 != f {
+        return Err((format!("c15:{}:frame-depends-on-builder-history", number), format!("{}: list of {} elements encodes differently on a builder used before for [{}]", number, n, d.label)));
+    }
+    Ok(f)
+}
+fn msggen_seed() -> u64 {
+    std::env::var("VERIF_SEED").ok().and_then(|s| s.trim().parse::<i128>().ok()).map(|v| v as u64).unwrap_or(20261002)
+}
+pub fn oracle_list_with(number: u16, tree: &Value, n: usize, before: Option<&Message>) -> Result<Vec<u8>, (String, String)> {
     let (off, width, _cap) = count_field(number).ok_or_else(|| ("c15:harness".to_string(), "no layout".to_string()))?;
     let m = value_to_message(tree).map_err(|e| (format!("c15:{}:not-constructible", number), format!("{} elements do not fit the container: {}", n, e)))?;
     let r = catch(|| -> Result<Vec<u8>, (String, String)> {
-        let f = msggen::build(&m).map_err(|e| (format!("c15:{}:refused", number), format!("{}: list of {} elements refused by the encoder: {}", number, n, e)))?;
+        let built = match before {
+            None => msggen::build(&m),
+            Some(d) => {
+                let mut b = MessageBuilder::new();
+                let _ = b.build_message(d).map(|f| f.len());
+                b.build_message(&m).map(|f| f.to_vec()).map_err(|e| format!("{:?}", e))
+            }
+        };
+        let f = built.map_err(|e| (format!("c15:{}:refused", number), format!("{}: list of {} elements refused by the encoder: {}", number, n, e)))?;
         let p = &f[3..f.len() - 3];
         if p.len() > 1023 {
             return Err((format!("c15:{}:payload-too-long", number), format!("payload {} bytes", p.len())));
@@ -182,7 +205,7 @@ pub fn run(ctx: &Ctx, replay: Option<&J>) -> CheckResult {
     let rule = "every list-bearing type of the pinned layout table (legacy observables 1001-1004/1009-1012, 1013, network RTK 1015-1017/1037-1039/1030/1031/1034/1035/1303/1304, SSR \
         1057/1058/1060-1064/1066-1068) x every n=0..=capacity with elements drawn from decoded zero/ones/random vectors in varying order; descriptor strings of 1007/1008/1033/1021/1022/\
         1300-1302 for every length 0..=31, the 1302 link list 0..=7, and the 1029 text for every byte length 0..=255 (1/2/3-byte characters, <=127 characters, special code points such as U+FEFF, U+200D, U+2028, NUL, backslash at the first / last position). oracle: build Ok, payload<=1023 bytes, count read from the wire at the pinned offset/width == n, decode == input \
-        (same number of elements, same order). Every count value above the capacity that the field can express (1057/1063: 61-63, 1060/1066: 40-63, 8-bit string counts 32-255) with a long \
+        (same number of elements, same order), also when the builder's first use was a refused or long message. Every count value above the capacity that the field can express (1057/1063: 61-63, 1060/1066: 40-63, 8-bit string counts 32-255) with a long \
         body => Corrupt; every byte truncation of full-length and mid-length frames (re-framed, valid CRC) => Corrupt (Empty below 2 bytes). non-trivial = all (n in {0,1,cap-1,cap} and \
         damaged frames are classed); distinct = (type, n, repetition) / hash of damaged payload"
         .to_string();
